@@ -45,6 +45,9 @@ static void list_units(const std::string& tier)
             printf("mode=reach,shape=S3,rel=%s,set=%s,rels=%s\n", rr, sr, th?"all":"fam");
             printf("mode=reach,shape=S4,rel=%s,set=%s,rels=%s\n", rr, sr, th?"fam":"fam0");
             if (th) printf("mode=reach,shape=S6,rel=%s,set=%s,rels=fam0\n", rr, sr);
+            // three levels, relations that are unions of two "events" (single transitions with identity elsewhere), every cube as initial set
+            if (th || rr[0]=='I') printf("mode=reach,shape=S6,rel=%s,set=%s,rels=ev2\n", rr, sr);
+            if (th) printf("mode=dist,shape=S6,rel=%s,set=%s,rels=%s\n", rr, sr, rr[0]=='I'?"ev2":"ev1");
             printf("mode=dist,shape=S1,rel=%s,set=%s,rels=all\n", rr, sr);
             printf("mode=dist,shape=S2,rel=%s,set=%s,rels=%s\n", rr, sr, "all");
             printf("mode=dist,shape=S3,rel=%s,set=%s,rels=%s\n", rr, sr, th?"fam":"fam0");
@@ -55,6 +58,7 @@ static void list_units(const std::string& tier)
             printf("mode=image,shape=S3,rel=%s,set=%s,rels=%s\n", rr, sr, th?"all":"fam");
             printf("mode=image,shape=S4,rel=%s,set=%s,rels=%s\n", rr, sr, th?"fam":"fam0");
             printf("mode=image,shape=S5,rel=%s,set=%s,rels=fam0\n", rr, sr);
+            if (th || rr[0]=='I') printf("mode=image,shape=S6,rel=%s,set=%s,rels=ev2\n", rr, sr);
             for (const char* ty : {"MTi","MTr"}) {
                 printf("mode=vm,ty=%s,shape=S1,rel=%s,set=%s,rels=all\n", ty, rr, sr);
                 printf("mode=vm,ty=%s,shape=S2,rel=%s,set=%s,rels=fam0\n", ty, rr, sr);
@@ -69,6 +73,23 @@ static std::vector<unsigned long> rel_indices(const Kind& rk, const Shape& s, co
     unsigned long U = ipow(V.size(), s.relPoints());
     std::vector<unsigned long> v;
     if (sel=="all") { for (unsigned long i=0;i<U;i++) v.push_back(i); return v; }
+    if (sel=="ev1" || sel=="ev2") {
+        // "event" relations: a single transition on one or two variables, identity on every other variable; ev2 = unions of two events
+        // (the shapes of relation the saturation algorithms split by level); needs relPoints <= 64 so that a relation is a bit mask
+        std::vector<unsigned long> ev; int x[16], xp[16]; long RP = s.relPoints();
+        if (RP>64) return v;
+        for (int a=1; a<=s.K(); a++) for (int b=a; b<=s.K(); b++) {
+            int ba=s.b[a-1], bb=s.b[b-1];
+            for (int fa=0;fa<ba;fa++) for (int ta=0;ta<ba;ta++) for (int fb=0;fb<(a==b?1:bb);fb++) for (int tb=0;tb<(a==b?1:bb);tb++) {
+                unsigned long m=0;
+                for (long p=0;p<RP;p++) { decode_rel(s,p,x,xp); bool ok = x[a]==fa && xp[a]==ta && (a==b || (x[b]==fb && xp[b]==tb)); for (int u=1;u<=s.K();u++) if (u!=a && u!=b && x[u]!=xp[u]) ok=false; if (ok) m|=1UL<<p; }
+                ev.push_back(m);
+            }
+        }
+        if (sel=="ev1") v=ev; else for (size_t i=0;i<ev.size();i++) for (size_t j=i;j<ev.size();j++) v.push_back(ev[i]|ev[j]);
+        std::sort(v.begin(),v.end()); v.erase(std::unique(v.begin(),v.end()),v.end());
+        return v;
+    }
     return sel=="fam0" ? structured_family(rk,s,V,1,true) : structured_family(rk,s,V,2,true);
 }
 
@@ -100,7 +121,11 @@ static void run_reach(const std::map<std::string,std::string>& spec)
     // initial-set menu: all subsets when small, else a fixed covering menu
     std::vector<unsigned long> inits;
     if (US<=16 || (rels.size()*US <= 600000)) for (unsigned long i=0;i<US;i++) inits.push_back(i);
-    else { inits = {0,1,US>>1,US-1,(US-1)/3}; for (long p=0;p<N;p++) inits.push_back(1UL<<p); }
+    else { inits = {0,1,US>>1,US-1,(US-1)/3}; for (long p=0;p<N;p++) inits.push_back(1UL<<p);
+        // every cube (each variable fixed or free): the sets whose fully-reduced diagram skips levels
+        std::vector<int> g(s.K()+1,-1); int y[16];
+        for (;;) { unsigned long m=0; for (long p=0;p<N;p++) { decode_set(s,p,y); bool ok=true; for (int w=1;w<=s.K();w++) if (g[w]>=0 && y[w]!=g[w]) ok=false; if (ok) m|=1UL<<p; } if (std::find(inits.begin(),inits.end(),m)==inits.end()) inits.push_back(m);
+            int v=1; for (; v<=s.K(); v++) { if (++g[v] < s.b[v-1]) break; g[v]=-1; } if (v>s.K()) break; } }
     ctx.counters["relations"]=(long)rels.size(); ctx.counters["initial_sets"]=(long)inits.size();
     dd_edge r(FS), rel(FR), r2(FS2?FS2:FS);
     long it=0;
